@@ -65,6 +65,9 @@ def _fingerprint(interp, rec):
 def run_case(res: Result, spec, idx):
     extg = spec.get("extguard", False)
     P = gen.profile("select", p_forbidden=0.08)
+    if idx % 3 == 1:
+        # dotted event types with partial ('a.*') and bare ('*') wildcard handlers next to exact ones
+        P = gen.profile("select", p_forbidden=0.08, wild=True, events=["a.x", "a.y", "b"], p_handle=0.5)
     if extg:
         P = gen.profile("select", p_forbidden=0.05, p_always=0.3)
     crng = rng_for(spec["seed"], ID, spec["chunk"], idx, "case")
@@ -109,10 +112,26 @@ def run_case(res: Result, spec, idx):
                 finally:
                     gt.clear()
                     gt.update(saved)
+            # the Event OBJECT that is about to be delivered is probed last, under a valuation that
+            # differs from the delivery one: what can() learnt must not leak into the delivery
+            evobj = None
+            if i % 2 == 1:
+                evobj = drive._mk_event(ev)
+                other = drive.rand_gtable(vrng, case)
+                saved = dict(gt)
+                gt.clear()
+                gt.update(other)
+                try:
+                    interp.can(evobj)
+                    res.count("can.probes-with-the-delivered-object")
+                finally:
+                    gt.clear()
+                    gt.update(saved)
             if _fingerprint(interp, rec) != fp:
                 bad("C02:can-has-side-effect", "can() changed the observable fingerprint",
                     {"config": sorted(cfg)})
             st8["pre"] = (cfg, noms, ctx_before, fp, dict(gt))
+            return evobj
 
         def on_step(run, st):
             if st.phase == "start":
